@@ -73,9 +73,18 @@ def mutations(pdu: bytes, extra: Tuple[int, ...]) -> Iterator[bytes]:
             yield pdu[:i] + bytes([b]) + pdu[i + 1:] + b"\x11" * 40
 
 
+_LENIENT = [False]
+
+
 def judge(part: Part, tag: str, case: Dict[str, Any], pdu: bytes, res: Any, exc: Any, ref_short: bool, what: str) -> None:
     from odxtools.exceptions import DecodeError
     part.count("evaluations")
+    if _LENIENT[0]:
+        # non-strict mode: what a downgraded problem decodes to is not specified, but still nothing except a decode error
+        # may escape and decoding must terminate
+        tag = tag + "/non-strict-mode"
+        case = dict(case, lenient=True)
+        ref_short = False
     if exc is None:
         part.count("returned")
         if ref_short:
@@ -179,7 +188,25 @@ def check_program(L: harness.Loaded, prog: Dict[str, Any], part: Part) -> None:
             judge(part, f"{tag}/{name}", case, pdu, "..." if exc is None else None, exc, False, name)
 
 
-unit_fn = make_unit_fn(PROPERTY, check_program)
+_strict_unit_fn = make_unit_fn(PROPERTY, check_program)
+
+
+def unit_fn(unit: Any) -> Part:
+    """unit: (name, programs) or (name, programs, 'lenient'): the same exploration with odxtools' strict mode switched off"""
+    import logging
+
+    import odxtools.exceptions
+    lenient = len(unit) > 2 and unit[2] == "lenient" or any(p.get("lenient") for p in unit[1])
+    if not lenient:
+        return _strict_unit_fn(unit[:2])
+    logging.disable(logging.CRITICAL)
+    odxtools.exceptions.strict_mode = False
+    _LENIENT[0] = True
+    try:
+        return _strict_unit_fn(unit[:2])
+    finally:
+        odxtools.exceptions.strict_mode = True
+        _LENIENT[0] = False
 
 
 # ---------------------------------------------------------------------------------------------
@@ -313,7 +340,10 @@ def run(ctx: Ctx) -> None:
     ctx.rule = "program x byte string; non-trivial = distinct (construct, outcome class, length)"
     ctx.assumptions = ["warnings of category DecodeError are not exceptions and are ignored", "a decode running longer than 5 s counts as non-termination",
                        "'ends before the last parameter' is decided by the reference decoder running out of bytes (three-valued: only its Short verdict is used)"]
-    pmap(ctx, unit_fn, units, isolate=True)
+    # the same in non-strict mode (quick: every fourth unit)
+    lunits = [(n, p, "lenient") for n, p in (units[::4] if ctx.quick else units)]
+    ctx.bounds["non_strict_mode"] = "every unit again with strict mode off (quick: every fourth unit); only 'no foreign exception, terminates' is judged there"
+    pmap(ctx, unit_fn, units + lunits, isolate=True)
     import odxtools
     db = odxtools.load_pdx_file(os.path.join(repo_root(), "examples", "somersault.pdx"))
     sunits = [(l.short_name, 2 if ctx.quick else 3, sh) for l in db.diag_layers for sh in range(4)]
@@ -345,4 +375,8 @@ def replay(case: Any) -> List[Tuple[str, str]]:
             res, exc = guarded_decode(layer.services[case["service"]].decode_message, pdu)
         judge(part, f"somersault/{case['somersault']}/{case['api']}", case, pdu, "...", exc, False, case["api"])
         return [(k, v[2]) for k, v in part.viol.items()]
+    if case.get("lenient"):
+        def lenient_unit(u: Any) -> Part:
+            return unit_fn((u[0], u[1], "lenient"))
+        return replay_with(lenient_unit, case)
     return replay_with(unit_fn, case)
